@@ -35,6 +35,12 @@ CHECKS = {
     "C14": ("exploration", "runtime monitoring at the read boundary: bytes pulled from an instrumented endless reader / FIFO (bounded-progress restatement of termination)",
             "jawk::go is given an input that never ends; the monitor counts bytes pulled and fails the run if the reader's cap is reached or more than 64 KiB are pulled past the value that produces row S+T (located by finite unlimited runs of the same build).",
             "Termination on unbounded input is not decidable by a finite run; it is restated as 'returns Ok having pulled a bounded number of bytes'. Decided in bytes, never in wall-clock time (the 30 s watchdog only yields inconclusive).", "5 C14"),
+    "C18": ("exploration", "runtime monitoring at the boundary: Result, bytes written to stdout, stdin-factory invocations and FIFO-open detection for single-fault corruptions of valid configurations",
+            "Valid generated configurations (checked to be accepted) are corrupted by exactly one operator in one option position; the real parser/validator runs and the monitor observes that nothing was written, stdin was never requested and an input FIFO was never opened before the error.",
+            "Each corruption is invalid by the documented grammar (pinned function table for arities); clap rejections count as early rejections.", "5 C18"),
+    "C20": ("exploration", "runtime monitoring of the real executable as a child process (stdout/stderr/exit status), differential against the in-process run of the same build; failing sinks (closed pipe, /dev/full)",
+            "The release binary built from the working tree is spawned on generated inputs under all policies, valid and invalid configurations and three kinds of stdout; streams and exit status are compared with the in-process reference.",
+            "The in-process run of the same library is the reference for stream contents; only process-level behaviour (which fd, exit status, lost output) is decided here.", "5 C20"),
 }
 
 PENDING_REASON = "check not built yet in this session (see DESIGN.md section 5 for the planned monitor)"
